@@ -25,6 +25,8 @@ META = {
 }
 GROUP = "imageproc"
 REQ = "From RV Require Import Prelude.\nFrom ImageProc Require Import Draw Contours.\nOpen Scope Z_scope."
+REQ_D = REQ + "\nNotation case := dcase (only parsing)."
+REQ_C = REQ + "\nNotation case := ccase (only parsing)."
 THEOREMS = ["C36_bresham_in_bbox", "C36_bresham_endpoints", "C36_draw_line_in_image", "C36_fill_rect_writes",
             "C36_stroke_rect_writes", "C36_draw_polygon_in_image", "C36_nonvacuous_draw",
             "C36_contours_ok_le_4x4", "C36_contours_checker_sound", "C36_nonvacuous_contours"]
@@ -44,23 +46,23 @@ def main(ctx):
     ctx.audit(GROUP)
     failed = ctx.prove(GROUP, "Props_C36", THEOREMS, timeout=3000)
     bindir = ctx.harness(GROUP, profile="release", bins=["c36"], hooks=False)
-    cases = ctx.gen_exec(bindir, "c36", ctx.n(600, 6000), inputs=ctx.replay_inputs())
+    cases = ctx.gen_exec(bindir, "c36", ctx.n(400, 5000), inputs=ctx.replay_inputs())
     draw = [c for c in cases if c["input"].startswith("D|")]
     cont = [c for c in cases if c["input"].startswith("C|")]
     # The alarm: the implementation's own outcome must satisfy the property oracle.
     if draw:
-        ctx.correspond("drawing-stays-in-image-and-shape", GROUP, REQ, draw, agree="prop_ok_draw", prop_ok="prop_ok_draw",
+        ctx.correspond("drawing-stays-in-image-and-shape", GROUP, REQ_D, draw, agree="prop_ok_draw", prop_ok="prop_ok_draw",
                        show="show_draw", shard=300, fn_name="ImageProc.Draw.prop_ok_draw")
     if cont:
-        ctx.correspond("contours-valid", GROUP, REQ, cont, agree="prop_ok_contours", prop_ok="prop_ok_contours",
-                       show="show_contours", shard=250, fn_name="ImageProc.Contours.prop_ok_contours")
+        ctx.correspond("contours-valid", GROUP, REQ_C, cont, agree="prop_ok_contours", prop_ok="prop_ok_contours",
+                       show="show_contours", shard=500, fn_name="ImageProc.Contours.prop_ok_contours")
     # Informational: does the code still coincide with the deterministic models the theorems are about?
     drift = {}
     if draw:
-        dis, _, err = ctx.coq_eval_cases(GROUP, REQ, [c["term"] for c in draw], "agree_draw", "prop_ok_draw", 300, tag="ddet")
+        dis, _, err = ctx.coq_eval_cases(GROUP, REQ_D, [c["term"] for c in draw], "agree_draw", "prop_ok_draw", 300, tag="ddet")
         drift["drawing"] = len(dis) if not err else "evaluation error"
     if cont:
-        dis, _, err = ctx.coq_eval_cases(GROUP, REQ, [c["term"] for c in cont], "agree_contours", "prop_ok_contours", 250, tag="cdet")
+        dis, _, err = ctx.coq_eval_cases(GROUP, REQ_C, [c["term"] for c in cont], "agree_contours", "prop_ok_contours", 500, tag="cdet")
         drift["contours"] = len(dis) if not err else "evaluation error"
     ctx.extra["deterministic_model_disagreements"] = drift
     if any(v for v in drift.values()):
